@@ -21,6 +21,7 @@
 
 #include <unistd.h>
 #include <fcntl.h>
+#include <cerrno>
 #include <cstring>
 #include <iostream>
 #include <sstream>
@@ -101,18 +102,28 @@ void AsyncFileSink::flush()
     if (pid_ == 0 || !checkAndCreateLogFile())
         return;
 
-    auto wsize = ::write(fd_, cache_.data(), cache_.size());
-    if (wsize != static_cast<ssize_t>(cache_.size())) {
-        cerr << "Err: write file error." << endl;
-        return;
+    //! write() may accept fewer bytes than asked: go on with the rest, never write a byte twice
+    size_t done_size = 0;
+    while (done_size < cache_.size()) {
+        auto wsize = ::write(fd_, cache_.data() + done_size, cache_.size() - done_size);
+        if (wsize <= 0) {
+            if (wsize < 0 && errno == EINTR)
+                continue;
+            cerr << "Err: write file error." << endl;
+            break;
+        }
+        done_size += wsize;
     }
 
-    total_write_size_ += cache_.size();
+    total_write_size_ += done_size;
+    cache_.erase(cache_.begin(), cache_.begin() + done_size);
+
+    //! on error keep the unwritten tail for the next flush(), in the same file
+    if (!cache_.empty())
+        return;
 
     if (total_write_size_ >= file_max_size_)
         CHECK_CLOSE_RESET_FD(fd_);
-
-    cache_.clear();
 }
 
 bool AsyncFileSink::checkAndCreateLogFile()
